@@ -99,7 +99,7 @@ def i_SH(ins, fmap):
 def i_SW(ins, fmap):
     dst, src = ins.operands
     if dst.a.base is not zero:
-        fmap[dst] = fmap(src)
+        fmap[dst] = fmap(src[0:32])
 
 
 @__npc
@@ -271,9 +271,11 @@ def i_JAL(ins, fmap):
 
 def i_JALR(ins, fmap):
     dst, src1, imm = ins.operands
+    # the target uses rs1 *before* the link is written (rd may be rs1):
+    target = fmap((src1 + imm) & cst(-2, 64))
     if dst is not zero:
         fmap[dst] = fmap(pc + ins.length)
-    fmap[pc] = fmap((src1 + imm) & cst(-2, 64))
+    fmap[pc] = target
 
 
 def i_BEQ(ins, fmap):
@@ -323,6 +325,12 @@ def i_SH(ins, fmap):
 @__npc
 def i_SW(ins, fmap):
     dst, src = ins.operands
+    fmap[dst] = fmap(src[0:32])
+
+
+@__npc
+def i_SD(ins, fmap):
+    dst, src = ins.operands
     fmap[dst] = fmap(src)
 
 
@@ -332,7 +340,7 @@ def i_LB(ins, fmap):
     fmap[dst] = fmap(src).signextend(64)
 
 
-i_LH = i_LW = i_LB
+i_LH = i_LW = i_LD = i_LB
 
 
 @__npc
@@ -341,7 +349,7 @@ def i_LBU(ins, fmap):
     fmap[dst] = fmap(src).zeroextend(64)
 
 
-i_LHU = i_LBU
+i_LHU = i_LWU = i_LBU
 
 
 @__npc
